@@ -6,6 +6,11 @@ ROOT = os.path.dirname(os.path.dirname(os.path.abspath(__file__)))
 
 # id -> (level category, technique, level text, level note, design ref)
 CHECKS = {
+    "C16": ("exploration",
+            "stateful property-based testing (proptest) of the worker's SessionManager against a multiset model of live sessions and per-(cluster, IP) slots",
+            "Generated histories of accept / request-through-the-per-IP-gate / close / runtime limit changes / per-cluster overrides on the real SessionManager, called exactly as the mux router and tcp sessions call it; admission verdicts, connection count, accept hysteresis, per-IP verdict == (slots taken >= limit in force) without false refusals, and return to zero after all sessions closed. The live-worker part (gauges, buffers, slab entries, timers, storms above max_connections) is a wire-lab check not built yet.",
+            "Only the SessionManager accounting is covered so far; metrics gauges, buffer pool, slab and timers of a live worker are not.",
+            "DESIGN.md §4 C16 (a)"),
     "C10": ("exploration",
             "property-based round-trip testing (proptest) of the SCM_RIGHTS listener hand-off codec with fd-identity and fd-leak oracles",
             "Generated listener sets (0..200 entries, four kinds, IPv4/IPv6 addresses of every textual length, real bound sockets and dups, blocking and non-blocking) are sent with send_listeners over a UnixStream pair and received with receive_listeners: same lists, same order, every received descriptor is the same open file (fstat) bound to its address; sets above the limit give a clean error; a single-threaded sub-check counts process descriptors before/after. The hand-over under traffic (soft stop, successor worker) is the wire-lab part and is not built yet.",
